@@ -127,11 +127,20 @@ def run(ctx):
     dtl = term_lookup(prog, dg)
     calls = [dtl(n2) for f2 in with_helpers(prog, dg) for n2 in ast.walk(f2.node) if isinstance(n2, ast.Call) and dtl(n2) is not None and call_is(dtl(n2), f"{DISC}._get_device")]
     okc = False
+
+    def ver_from_detect(v):
+        # the detected version, possibly kept in a variable that is None when detection failed (the hand-over is then guarded)
+        def lv(x):
+            x = strip(x)
+            return lv(x[2]) + lv(x[3]) if x[0] == "ite" else [x]
+        ls = lv(v)
+        det = [x for x in ls if call_is(x, f"{DISC}._get_device_version")]
+        return bool(det) and all(strip(x[2][-1]) == ("param", dg.params[1]) for x in det) and all(x in det or x == ("const", None) for x in ls)
     for c in calls:
         a = c[2]
         ipt = strip(a[-3]) if len(a) >= 3 else None
         okc = ipt is not None and ((ipt[0] == "item" and ipt[1] == ("param", dg.params[2]) and ipt[2] == 0) or (ipt[0] == "sub" and ipt[1] == ("param", dg.params[2]) and ipt[2] == ("const", 0))) \
-            and call_is(strip(a[-2]), f"{DISC}._get_device_version") and strip(strip(a[-2])[2][-1]) == ("param", dg.params[1]) and strip(a[-1]) == ("param", dg.params[1])
+            and ver_from_detect(a[-2]) and strip(a[-1]) == ("param", dg.params[1])
     ctx.count("handover_sites", len(calls))
     ctx.ob("C17.b", dg.qual, okc, "_get_device(addr[0], detected version, datagram)", func=dg.qual, file=file, construct="Discover._get_device(ip, version, data)",
            fail="datagram_received does not hand the source address, the detected version and the datagram to _get_device")
@@ -140,9 +149,13 @@ def run(ctx):
     gd = ctx.fn(f"{DISC}._get_device")
     gds = summarize(prog, gd)
     built = False
+    def ret_leaves(x):
+        x = strip(x)
+        return ret_leaves(x[2]) + ret_leaves(x[3]) if x[0] == "ite" else [x]
     for pc2, t2, n2, _st in gds.returns:
-        if n2 is not None and t2 != ("const", None):
-            tt = strip(t2)
+        if n2 is None:
+            continue
+        for tt in [x for x in ret_leaves(t2) if x != ("const", None)]:          # (a single exit returning `dev`, None when nothing was parsed)
             built = tt[0] == "call" and tt[1][0] == "dyn" and call_is(strip(tt[1][1]), f"{DISC}._get_device_class") and any(k == "**" for k, _v in tt[3]) \
                 and any(call_is(x, f"{DISC}._get_device_info") for k, v in tt[3] for x in subterms(v))
             cls_arg = strip(strip(tt[1][1])[2][-1]) if built else None
@@ -217,13 +230,21 @@ def run(ctx):
             for conds, leaf in vleaves(ts2):
                 if not (is_const(leaf) and isinstance(leaf[1], int)):
                     continue
-                mk = None
-                for a, b in equality_atoms(atoms(tuple(pc2) + tuple(conds))):
-                    for x, y in ((a, b), (b, a)):
-                        xs = strip(x)
-                        if xs[0] == "slice" and strip(xs[1]) == ("param", dpv) and xs[2] is None and xs[3] == ("const", 2) and is_const(y) and isinstance(y[1], bytes):
-                            mk = y[1]
-                seen[leaf[1]] = mk
+                from ..facts import cases as _cases
+                try:
+                    css_ = _cases(tuple(pc2) + tuple(conds), cap=128) or [atoms(tuple(pc2) + tuple(conds))]
+                except ValueError:
+                    css_ = [atoms(tuple(pc2) + tuple(conds))]
+                mks = set()
+                for case in css_:          # every way of reaching the leaf matched the same marker
+                    mk = None
+                    for a, b in equality_atoms(case):
+                        for x, y in ((a, b), (b, a)):
+                            xs = strip(x)
+                            if xs[0] == "slice" and strip(xs[1]) == ("param", dpv) and xs[2] is None and xs[3] == ("const", 2) and is_const(y) and isinstance(y[1], bytes):
+                                mk = y[1]
+                    mks.add(mk)
+                seen[leaf[1]] = next(iter(mks)) if len(mks) == 1 else None
             continue
         if not is_const(t2):
             continue
@@ -280,6 +301,21 @@ def run(ctx):
             elif src[0] in ("list", "tuple", "set") and all(is_const(x) for x in src[1]):
                 ports = sorted(x[1] for x in src[1])
     s_ok = bool(sends) and all(c[2][0] == ("const", msg) and strip(c[2][1])[0] == "tuple" and strip(strip(c[2][1])[1][0]) == ("attr", ("param", sd.params[0]), "_target") for c in sends)
+    if ports is None and sends:
+        # the destinations precomputed as a list of (target, port) pairs the send loop iterates over
+        tgt = ("attr", ("param", sd.params[0]), "_target")
+        pairs = []
+        for c in sends:
+            adr = strip(c[2][1]) if len(c[2]) > 1 else None
+            src = strip(adr[1]) if adr is not None and adr[0] == "iter" else None
+            if src is not None and src[0] in ("list", "tuple") and all(strip(x)[0] == "tuple" and len(strip(x)[1]) == 2 for x in src[1]):
+                pairs += [strip(x)[1] for x in src[1]]
+            else:
+                pairs = None
+                break
+        if pairs and all(strip(a_) == tgt and is_const(strip(b_)) for a_, b_ in pairs):
+            ports = sorted(strip(b_)[1] for _a, b_ in pairs)
+            s_ok = all(c[2][0] == ("const", msg) for c in sends)
     ctx.ob("C17.d", sd.qual, ports == [6445, 20086] and s_ok, "the probe is sent to the target on ports 6445 and 20086", func=sd.qual, file=file, construct="_send_discovery",
            detail={"ports": ports}, fail=f"the probe is sent to ports {ports} / with another payload or target")
     # ---- C17.t18 "every device that answers with a well-formed reply is reported" needs the other hosts' replies, whatever they are, not to
